@@ -432,6 +432,161 @@ func checkC08(w *World, r *Report) {
 	})
 }
 
+// c10StmtStar: the loop of stmtStar has an accumulator that, on every way
+// round, is append(accumulator, s) for s the statement stmt() returned in
+// this iteration; every stmt() call is such an s; and the loop is only left
+// without appending when s is nil.
+func c10StmtStar(w *World) string {
+	f := w.SSAFunc(w.Method("parse", "Tree", "stmtStar"))
+	stmtFn := w.SSAFunc(w.Method("parse", "Tree", "stmt"))
+	isStmt := func(v ssa.Value) bool {
+		c, ok := v.(*ssa.Call)
+		return ok && c.Call.StaticCallee() == stmtFn
+	}
+	sym := NewSym(w)
+	for _, l := range ssaLoops(f) {
+		body := l.body()
+		for _, in := range l.Header.Instrs {
+			acc, ok := in.(*ssa.Phi)
+			if !ok {
+				continue
+			}
+			if _, isSlice := acc.Type().Underlying().(*types.Slice); !isSlice {
+				continue
+			}
+			used := map[ssa.Value]bool{} // stmt() calls that make up the appended statement
+			cur := func(v ssa.Value) bool {
+				if isStmt(v) {
+					if c := v.(*ssa.Call); body[c.Block()] {
+						used[v] = true
+						return true
+					}
+					return false
+				}
+				phi, ok := v.(*ssa.Phi)
+				if !ok || phi.Block() != l.Header {
+					return false
+				}
+				for _, e := range phi.Edges {
+					if !isStmt(e) {
+						return false
+					}
+				}
+				for _, e := range phi.Edges {
+					used[e] = true
+				}
+				return true
+			}
+			var current ssa.Value
+			var appends []*ssa.BasicBlock
+			for _, lt := range l.Latches {
+				c, ok := phiEdge(acc, lt).(*ssa.Call)
+				if !ok {
+					return "an iteration goes round without appending to the list"
+				}
+				bi, isB := c.Call.Value.(*ssa.Builtin)
+				if !isB || bi.Name() != "append" || len(c.Call.Args) != 2 || c.Call.Args[0] != ssa.Value(acc) {
+					return "the list carried to the next iteration is not append(list, statement)"
+				}
+				sl, ok := c.Call.Args[1].(*ssa.Slice)
+				if !ok {
+					return "what is appended is not a single statement"
+				}
+				lits := sliceLiteral(sl)
+				if len(lits) != 1 || !cur(lits[0]) {
+					return "what is appended is not the statement stmt() returned in this iteration"
+				}
+				if current != nil && current != lits[0] {
+					return "different statements are appended on different ways round the loop"
+				}
+				current = lits[0]
+				appends = append(appends, c.Block())
+			}
+			for _, b := range f.Blocks {
+				for _, in := range b.Instrs {
+					if v, isVal := in.(ssa.Value); isVal && isStmt(v) && !used[v] {
+						return "a statement read by stmt() is not the one appended"
+					}
+				}
+			}
+			// leaving the loop with a statement in hand that was not appended
+			for b := range body {
+				appended := false
+				for _, ab := range appends {
+					if ab == b || ab.Dominates(b) {
+						appended = true
+					}
+				}
+				if appended {
+					continue
+				}
+				for _, o := range b.Succs {
+					if body[o] {
+						continue
+					}
+					cond := pcAndF(sym.PathCond(l.Header, b, nil), sym.edgeCond(b, o, nil))
+					has := false
+					classify := func(a *pcAtom) string {
+						if a.op == token.EQL && ((a.x == current && isNilConst(a.y)) || (a.y == current && isNilConst(a.x))) {
+							has = true
+							return "nil"
+						}
+						return ""
+					}
+					msg := pcImplies(cond, classify, func(env map[string]bool) bool { return env["nil"] })
+					if !has || msg != "" {
+						return "the loop is left before the statement just read was appended, and not because there was none"
+					}
+				}
+			}
+			// the list is only read afterwards (measured, copied, returned)
+			list := map[ssa.Value]bool{acc: true}
+			for _, lt := range l.Latches {
+				list[phiEdge(acc, lt)] = true
+			}
+			for changed := true; changed; {
+				changed = false
+				for _, b := range f.Blocks {
+					for _, in := range b.Instrs {
+						if phi, ok := in.(*ssa.Phi); ok && !list[phi] {
+							for _, e := range phi.Edges {
+								if list[e] {
+									list[phi], changed = true, true
+								}
+							}
+						}
+					}
+				}
+			}
+			for v := range list {
+				refs := v.Referrers()
+				if refs == nil {
+					continue
+				}
+				for _, ref := range *refs {
+					switch x := ref.(type) {
+					case *ssa.Phi, *ssa.Return, *ssa.DebugRef, *ssa.BinOp:
+					case *ssa.Call:
+						bi, isB := x.Call.Value.(*ssa.Builtin)
+						switch {
+						case isB && (bi.Name() == "len" || bi.Name() == "cap"):
+						case isB && bi.Name() == "copy" && len(x.Call.Args) == 2 && x.Call.Args[1] == v && !list[x.Call.Args[0]]:
+						case isB && bi.Name() == "append" && list[x]:
+						case x.Call.StaticCallee() != nil && x.Call.StaticCallee().Pkg != nil && x.Call.StaticCallee().Pkg.Pkg.Path() == "slices" && x.Call.StaticCallee().Name() == "Clone":
+						default:
+							return "the list of statements is handed to " + x.String() + " before it is returned"
+						}
+					default:
+						return "the list of statements is altered (" + ref.String() + ") before it is returned"
+					}
+				}
+			}
+			return ""
+		}
+	}
+	return "no loop with a list of statements found"
+}
+
 func checkC10(w *World, r *Report) {
 	r.NotDecided = []string{
 		"equality of trees over all re-layouts and re-quotings of a text (a relation over runtime inputs); only the structural channel from tokens to nodes is decided",
@@ -443,34 +598,9 @@ func checkC10(w *World, r *Report) {
 		ss := w.Method("parse", "Tree", "stmtStar")
 		fd, _ := w.FuncDecl(ss)
 		stmt := w.Method("parse", "Tree", "stmt")
-		// one append of the loop variable per iteration
-		okApp := false
-		ast.Inspect(fd.Body, func(n ast.Node) bool {
-			fs, ok := n.(*ast.ForStmt)
-			if !ok || fs.Init == nil {
-				return true
-			}
-			as, ok := fs.Init.(*ast.AssignStmt)
-			if !ok || len(as.Rhs) != 1 {
-				return true
-			}
-			if ce, ok := as.Rhs[0].(*ast.CallExpr); !ok || calleeOf(p, ce) != stmt {
-				return true
-			}
-			nv := objOfIdent(p, as.Lhs[0])
-			cnt := 0
-			ast.Inspect(fs.Body, func(x ast.Node) bool {
-				if ce, ok := x.(*ast.CallExpr); ok {
-					if id, ok := ce.Fun.(*ast.Ident); ok && id.Name == "append" && len(ce.Args) == 2 && objOfIdent(p, ce.Args[1]) == nv {
-						cnt++
-					}
-				}
-				return true
-			})
-			okApp = cnt == 1
-			return true
-		})
-		r.Check(okApp, "R10.1", "stmtStar appends each statement once, in order", fd.Pos(), "out = append(out, n) per stmt()", "statements are not appended once each in source order")
+		_ = stmt
+		why := c10StmtStar(w)
+		r.Check(why == "", "R10.1", "stmtStar appends each statement once, in order", fd.Pos(), "out = append(out, n) per stmt()", "statements are not appended once each in source order: "+why)
 		children := w.Field("parse", "node", "children")
 		var writers []string
 		for _, f := range funcDecls(p) {
